@@ -639,4 +639,115 @@ twin("deg: product re-associated and the one-hour constant hoisted", ["R-DEG", "
         energy_spent_by_one_idle_instance_over_one_hour = (
                 one_hour * (self.power_usage_effectiveness * self.idle_power))''')])
 
+# ------------------------------------------------------------------------------------------------ R-MAG
+mut("mag: fixed instance count read in the user's unit", ["R-MAG"],
+    [(ST, "self.fixed_nb_of_instances.to(u.dimensionless).magnitude", "self.fixed_nb_of_instances.magnitude")],
+    ["Storage.update_nb_of_instances"])
+mut("mag: shift duration read in the user's unit", ["R-MAG"],
+    [(EO, "math.floor(shift_duration.to(u.hour).magnitude)", "math.floor(shift_duration.magnitude)")],
+    ["return_shifted_hourly_quantities"])
+mut("mag: event duration read in the user's unit", ["R-MAG"],
+    [(CNO, "copy(event_duration.value).to(u.hour).magnitude", "copy(event_duration.value).magnitude")],
+    ["compute_nb_avg_hourly_occurrences"])
+mut("mag: storage duration read in the user's unit", ["R-MAG"],
+    [(ST, "math.ceil(self.data_storage_duration.to(u.hour).magnitude)", "math.ceil(self.data_storage_duration.magnitude)")],
+    ["automatic_storage_dumps_after_storage_duration"])
+mut("mag: raw instance count no longer made dimensionless before ceil", ["R-MAG"],
+    [(ST, "        raw_nb_of_instances = (self.full_cumulative_storage_need / self.storage_capacity).to(u.dimensionless)",
+      "        raw_nb_of_instances = (self.full_cumulative_storage_need / self.storage_capacity)")],
+    ["Storage.update_nb_of_instances", "call-site"])
+mut("mag: timespan read without conversion in a builder", ["R-MAG"],
+    [(TB, "    nb_of_hours = int(timespan.to(u.hour).magnitude)\n    linear_growth", "    nb_of_hours = int(timespan.magnitude)\n    linear_growth")],
+    ["linear_growth_hourly_values"])
+mut("mag: on-premise maximum read before conversion", ["R-MAG"],
+    [(SB, "            max_nb_of_instances = self.raw_nb_of_instances.max().ceil().to(u.dimensionless)",
+      "            max_nb_of_instances = self.hour_by_hour_ram_need.max().ceil()")],
+    ["on_premise_update_nb_of_instances"])
+twin("mag: conversion hoisted into a local first", ["R-MAG"],
+     [(ST, "            storage_duration_in_hours = math.ceil(self.data_storage_duration.to(u.hour).magnitude)",
+       "            duration_h = self.data_storage_duration.to(u.hour)\n            storage_duration_in_hours = math.ceil(duration_h.magnitude)")])
+twin("mag: sign test written the other way round", ["R-MAG"],
+     [(ST, "            if job.data_stored.magnitude >= 0:", "            if 0 <= job.data_stored.magnitude:")])
+
+# ------------------------------------------------------------------------------------------------ narrow rules
+mut("perup: across-patterns data stored sums the transferred dict", ["R-PERUP"],
+    [(JOB, '''            "hourly_data_stored_per_usage_pattern", "data stored")''',
+      '''            "hourly_data_transferred_per_usage_pattern", "data stored")''')], ["update_hourly_data_stored_across_usage_patterns"])
+mut("perup: occurrences written only for the first usage pattern", ["R-PERUP"],
+    [(JOB, '''        for up in self.usage_patterns:
+            self.hourly_occurrences_per_usage_pattern[up] = self.compute_hourly_occurrences_for_usage_pattern(up)''',
+      '''        for up in self.usage_patterns[:1]:
+            self.hourly_occurrences_per_usage_pattern[up] = self.compute_hourly_occurrences_for_usage_pattern(up)''')],
+    ["update_hourly_occurrences_per_usage_pattern"])
+mut("perup: network reads every pattern of the job", ["R-PERUP"],
+    [(NW, "            job_ups_in_network_ups = [up for up in job.usage_patterns if up in self.usage_patterns]",
+      "            job_ups_in_network_ups = [up for up in job.usage_patterns]")], ["Network.update_energy_footprint"])
+mut("bound: autoscaling sized on the mean", ["R-BOUND"],
+    [(SB, "        hour_by_hour_nb_of_instances = self.raw_nb_of_instances.ceil()\n\n        self.nb_of_instances = hour_by_hour_nb_of_instances.generate",
+      "        hour_by_hour_nb_of_instances = self.raw_nb_of_instances.mean()\n\n        self.nb_of_instances = hour_by_hour_nb_of_instances.generate")],
+    ["autoscaling_update_nb_of_instances"], undecided_ok=True)
+mut("bound: on-premise sized on the mean instead of the peak", ["R-BOUND"],
+    [(SB, "            max_nb_of_instances = self.raw_nb_of_instances.max().ceil().to(u.dimensionless)",
+      "            max_nb_of_instances = self.raw_nb_of_instances.mean().ceil().to(u.dimensionless)")],
+    ["on_premise_update_nb_of_instances"], undecided_ok=True)
+mut("bound: fixed instance count used without the raising comparison", ["R-BOUND"],
+    [(ST, '''                if max_nb_of_instances > self.fixed_nb_of_instances:
+                    raise ValueError(
+                        f"The number of {self.name} instances computed from its resources need is superior to the "
+                        f"number of instances specified by the user/server "
+                        f"({max_nb_of_instances} > {self.fixed_nb_of_instances})")
+                else:''', '''                if True:''')], ["Storage.update_nb_of_instances", "fixed"])
+mut("bound: active instances no longer capped by provisioned ones", ["R-BOUND"],
+    [(ST, '''        nb_of_active_instances = tmp_nb_of_active_instances.np_compared_with(self.nb_of_instances.abs(), "min")''',
+      '''        nb_of_active_instances = tmp_nb_of_active_instances.np_compared_with(self.nb_of_instances.abs(), "max")''')],
+    ["update_nb_of_active_instances"])
+mut("local: job occurrences computed from the local-time series", ["R-LOCAL"],
+    [(JOB, "                    job_occurrences += usage_pattern.utc_hourly_usage_journey_starts.return_shifted_hourly_quantities(",
+      "                    job_occurrences += usage_pattern.hourly_usage_journey_starts.return_shifted_hourly_quantities(")],
+    ["reads local time"])
+mut("local: duplicated hours dropped instead of summed", ["R-LOCAL"],
+    [(EO, "            fused_duplicates = duplicates_df.groupby(duplicates_df.index).sum()",
+      "            fused_duplicates = duplicates_df.groupby(duplicates_df.index).first()")], ["convert_to_utc"])
+mut("placeholder: GenAIJob stops computing request_duration", ["R-PLACEHOLDER"],
+    [(GA, '''        return (["output_token_weights", "data_stored", "data_transferred", "request_duration", "ram_needed",''',
+      '''        return (["output_token_weights", "data_stored", "data_transferred", "ram_needed",''')],
+    ["GenAIJob.request_duration"])
+mut("sibjob: service jobs stop listing their server", ["R-SIB-JOB"],
+    [("builders/services/service_job_base_class.py", "        return [self.server] + super().modeling_objects_whose_attributes_depend_directly_on_me",
+      "        return super().modeling_objects_whose_attributes_depend_directly_on_me")], ["dependants lack server"])
+mut("serv: occupied RAM ignores installed services", ["R-SERV"],
+    [(SB, '''        self.occupied_ram_per_instance = (self.base_ram_consumption + sum(
+            [service.base_ram_consumption for service in self.installed_services])).set_label(''',
+      '''        self.occupied_ram_per_instance = self.base_ram_consumption.copy().set_label(''')], ["occupied_ram_per_instance"])
+mut("serv: server jobs ignore the jobs of installed services", ["R-SERV"],
+    [(SB, "            + sum([service.jobs for service in self.installed_services], [])\n", "")], ["jobs misses"])
+mut("sel: network picks its first usage pattern's country", ["R-SEL"],
+    [(NW, "            energy_footprint += up_network_consumption * up.country.average_carbon_intensity",
+      "            energy_footprint += up_network_consumption * self.usage_patterns[0].country.average_carbon_intensity")],
+    ["Network.update_energy_footprint"])
+mut("sel: storage picks a server without the singleton guard", ["R-SEL"],
+    [(ST, '''            if len(self.modeling_obj_containers) > 1:
+                raise PermissionError(
+                    f"Storage object can only be associated with one server object but {self.name} is associated "
+                    f"with {[mod_obj.name for mod_obj in self.modeling_obj_containers]}")
+''', "")], ["Storage.server"])
+mut("idflow: usage patterns sorted by id before summing", ["R-IDFLOW"],
+    [(JOB, "        for usage_pattern in self.usage_patterns:\n            hourly_calc_attr_summed_across_ups +=",
+      "        for usage_pattern in sorted(self.usage_patterns, key=lambda up: up.id):\n            hourly_calc_attr_summed_across_ups +=")],
+    ["sum_calculated_attribute_across_usage_patterns", "up.id"])
+mut("thread: list builder ignores the requested unit", ["R-THREAD"],
+    [(TB, '''    df = pd.DataFrame(input_list, index=period_index, columns=['value'], dtype=f"pint[{str(pint_unit)}]")''',
+      '''    df = pd.DataFrame(input_list, index=period_index, columns=['value'], dtype="pint[dimensionless]")''')],
+    ["create_hourly_usage_df_from_list", "pint_unit"])
+mut("thread: linear growth forgets the start date", ["R-THREAD"],
+    [(TB, "    df = create_hourly_usage_df_from_list(linear_growth, start_date, pint_unit)",
+      "    df = create_hourly_usage_df_from_list(linear_growth, pint_unit=pint_unit)")], ["linear_growth_hourly_values", "start_date"])
+mut("thread: frequency builder time line is daily", ["R-THREAD"],
+    [(TB, "    period_index = pd.date_range(start=start_date, end=end_date, freq='h')\n    # Important",
+      "    period_index = pd.date_range(start=start_date, end=end_date, freq='D')\n    # Important")],
+    ["create_hourly_usage_from_frequency", "date_range"])
+mut("thread: daily-volume builder passes its hours as active days", ["R-THREAD"],
+    [(TB, "        timespan, volume_per_hour, frequency='daily', active_days=None, hours=hours,",
+      "        timespan, volume_per_hour, frequency='daily', active_days=None, hours=None,")], ["hours"])
+
 VARIANTS = [v for v in V if v is not None]
